@@ -92,7 +92,22 @@ def sanitize(kind, v):
     return v
 
 
-def mutations(kind, fmt, v, rng):
+def with_twin_item(kind, v, rng):
+    """v with one of its items present TWICE (an identical copy appended; where items carry channel numbers the copy gets
+    a channel of its own): a comparison that asks "does the other block contain an item like mine" instead of comparing
+    item by item cannot tell a change made to one of the twins"""
+    ik = ITEMS.get(kind)
+    if ik is None or not v[ik]:
+        return None
+    j = rng.randrange(len(v[ik]))
+    v[ik].append(copy.deepcopy(v[ik][j]))
+    v[COUNT[kind]] += 1
+    if kind in MAP:
+        v[MAP[kind]].append(next(c for c in range(600, 900) if c not in v[MAP[kind]]))
+    return j
+
+
+def mutations(kind, fmt, v, rng, at=None):
     """[(description, mutated value)] — each differs from v in exactly one clause of the property"""
     out = []
 
@@ -171,7 +186,7 @@ def mutations(kind, fmt, v, rng):
                 if kind in MAP:
                     w[MAP[kind]].pop()
             mut("last item removed", remove)
-            j = rng.randrange(len(items))
+            j = rng.randrange(len(items)) if at is None else at
             # --- a label
             if kind in ("D3", "EM", "FT", "PC", "EV"):
                 def relabel(w):
@@ -265,7 +280,7 @@ def run(chk):
     chk.rule = ("valid blocks of all nine types (floats are numbers; NaN only as a wholly-missing frame) paired with: the same "
                 "object, an independently built twin, decode(encode(a)), and a with exactly one change — a header scalar, a "
                 "channel number, a label, a sample / coordinate / coefficient moved far beyond tolerance, an exactly-compared float (camera record fields, calibration volume, event values, 2D coordinates) moved by one unit in the last place, a present frame made "
-                "missing, one item / link / point appended, the last item removed; a == b and b == a on the implementation vs "
+                "missing, one item / link / point appended, the last item removed; a third of the blocks with one item present twice and the change made to one of the twins; a == b and b == a on the implementation vs "
                 "Equality.v and vs the property's verdict; the same for blocks with 256 or more items; plus pairs of files built from such blocks; non-trivial = >= 1 item")
     cases, meta = [], []
     large = codec.large_count_cases(chk)               # 256 or more items / channels / points / segments
@@ -276,6 +291,12 @@ def run(chk):
         else:
             kind, fmt, v = large[i - n]
         v = sanitize(kind, v)
+        at = None
+        if i < n and (i // len(blocks.KINDS)) % 3 == 2 and kind != "D2":
+            j = with_twin_item(kind, v, rng)
+            if j is not None:
+                at = rng.choice((j, len(v[ITEMS[kind]]) - 1))        # the change goes into one of the two twins
+                chk.count("block with an item present twice")
         try:
             a = blocks.build(kind, fmt, v)
             widen_header_floats(kind, a)
@@ -289,7 +310,7 @@ def run(chk):
         nitems = v[3] if kind == "D3" else v[0]
         chk.count("%s fmt=%d" % (kind, fmt))
         pairs = [("itself", a, v), ("an independently built twin", twin, v), ("decode(encode(a))", dec, v)]
-        for desc, w in mutations(kind, fmt, v, rng):
+        for desc, w in mutations(kind, fmt, v, rng, at):
             try:
                 pairs.append((desc, blocks.build(kind, fmt, w), w))
             except Exception as e:
